@@ -274,6 +274,7 @@ package vm
 // OpRange: elements[0..i) are the integers lo, lo+1, ...
 //@ loop 6 invariant range.inv.i: 0 <= i && i <= l && l == len(elements)
 //@ loop 6 invariant range.inv.fresh: fresh(elements)
+//@ loop 6 invariant range.inv.rows: forall a ref :: a != arr(elements) ==> rowSameSince(1, object.Object, a)
 //@ loop 6 invariant range.inv.good: forall j in 0..i :: validObj(elements[j])
 //@ loop 6 invariant @C16 range.inv.values: forall j in 0..i :: isInt(elements[j]) && ival(elements[j]) == minI + j
 //@ loop 6 decreases @C09 l - i
